@@ -17,6 +17,22 @@ static int emu_calls[10];
   for (i = 0; i < n; i++) { unsigned s = (unsigned) a[i] + b[i]; d[i] = s > 65535 ? 65535 : (orc_uint16) s; } }
 EMU (0) EMU (1) EMU (2) EMU (3) EMU (4) EMU (5) EMU (6)
 
+/* an opcode whose two sources differ in size (as mulhslw in examples/volscale.c): d = a + (sign-extended 16-bit) b.
+ * Registered in every history, without code generation rules: judged under emulation, with the 16-bit operand given as
+ * an array, as a constant and as a parameter. */
+static int emu_mixed_calls;
+static void emu_mixed (OrcOpcodeExecutor *ex, int offset, int n)
+{
+  int i;
+  const orc_int32 *a = ex->src_ptrs[0];
+  const orc_int16 *b = ex->src_ptrs[1];
+  orc_int32 *d = ex->dest_ptrs[0];
+  (void) offset;
+  emu_mixed_calls++;
+  for (i = 0; i < n; i++) d[i] = a[i] + b[i];
+}
+static OrcStaticOpcode setMixed[] = { { "addlwx", 0, { 4 }, { 4, 2 }, emu_mixed }, { "" } };
+
 static OrcStaticOpcode setA[] = { { "myop", 0, { 2 }, { 2, 2 }, emu_0 }, { "myop2", 0, { 2 }, { 2, 2 }, emu_1 }, { "" } };
 static OrcStaticOpcode setB[] = { { "addbx", 0, { 2 }, { 2, 2 }, emu_2 }, { "" } };
 static OrcStaticOpcode setC[] = { { "add", 0, { 2 }, { 2, 2 }, emu_3 }, { "" } };
@@ -156,6 +172,7 @@ static void child (const Op * hist, int nh, int wfd)
   v_install_handlers ();
   alarm (120);	/* wall-clock backstop only: generous, so that a loaded machine cannot turn it into an alarm */
   for (i = 0; i < 24; i++) { S1v[i] = (orc_uint16) (i * 3001 + 17); S2v[i] = (orc_uint16) (i * 7919 + 60000); }
+  orc_opcode_register_static (setMixed, "appMixed");
   for (i = 0; i < nh; i++) {
     const Op *o = &hist[i];
     if (o->kind == 0) {
@@ -266,6 +283,40 @@ static void child (const Op * hist, int nh, int wfd)
         if (memcmp (d, e, sizeof (d))) FAIL ("%s on %s with flags 0x%x computes a wrong result", probe_op[s], tnames[t], V[vi]);
         orc_program_free (p);
       }
+    }
+  }
+  /* the mixed-size opcode under emulation: second operand as array, constant, parameter */
+  {
+    int kind;
+    for (kind = 0; kind < 3; kind++) {
+      OrcProgram *p = orc_program_new ();
+      OrcExecutor ex;
+      orc_int32 a[24], d[24];
+      orc_int16 b[24];
+      int before = emu_mixed_calls;
+      for (i = 0; i < 24; i++) { a[i] = i * 100003 - 7; b[i] = (orc_int16) (i * 1237 - 9000); d[i] = 0x5a5a5a5a; }
+      orc_program_set_name (p, "mixed");
+      orc_program_add_destination (p, 4, "d1");
+      orc_program_add_source (p, 4, "s1");
+      if (kind == 0) orc_program_add_source (p, 2, "s2");
+      else if (kind == 1) orc_program_add_constant (p, 2, -0x1234, "c1");
+      else orc_program_add_parameter (p, 2, "p1");
+      orc_program_append_str (p, "addlwx", "d1", "s1", kind == 0 ? "s2" : kind == 1 ? "c1" : "p1");
+      if (ORC_COMPILE_RESULT_IS_FATAL (orc_program_compile_for_target (p, NULL))) FAIL ("mixed-size extension opcode addlwx (operand kind %d): fatal compile for emulation", kind);
+      memset (&ex, 0, sizeof (ex));
+      orc_executor_set_program (&ex, p);
+      ex.n = 21;
+      ex.arrays[ORC_VAR_D1] = d; ex.arrays[ORC_VAR_S1] = a;
+      if (kind == 0) ex.arrays[ORC_VAR_S2] = b;
+      if (kind == 2) orc_executor_set_param (&ex, ORC_VAR_P1, -0x1234);
+      orc_executor_emulate (&ex);
+      if (emu_mixed_calls == before) FAIL ("emulating addlwx did not call the application's emulation function");
+      for (i = 0; i < 21; i++) {
+        orc_int32 want = a[i] + (kind == 0 ? b[i] : -0x1234);
+        if (d[i] != want) FAIL ("addlwx d1, s1, %s (sources of 4 and 2 bytes): element %d is 0x%x, the application's function of the operands gives 0x%x", kind == 0 ? "s2" : kind == 1 ? "c1=-0x1234" : "p1=-0x1234", i, (unsigned) d[i], (unsigned) want);
+      }
+      if (d[21] != 0x5a5a5a5a) FAIL ("addlwx wrote past n");
+      orc_program_free (p);
     }
   }
   /* built-in programs: code and results, reported for the differential oracle */
